@@ -29,6 +29,10 @@ pub struct P18 {
     pub flag: u8,
     /// an unparsable document is added to the run (nothing executes)
     pub parse_error: bool,
+    /// 0 `scrut test`, 1 `scrut update --replace --assume-yes`, 2 `scrut create` (only clean-up
+    /// and orderly termination are asserted for 1 and 2)
+    #[serde(default)]
+    pub command: u8,
 }
 
 #[derive(Clone, Debug, Serialize, Deserialize)]
@@ -45,12 +49,18 @@ fn case_strategy() -> BoxedStrategy<Case18> {
             // Cram has neither per-test timeouts nor a front-matter for the shell
             outcome: if cram && (outcome == 2 || outcome == 4) { 1 } else { outcome },
         });
-    let p = (vec(doc, 1..5), prop_oneof![5 => Just(0u8), 2 => Just(1u8), 1 => Just(2u8)], proptest::bool::weighted(0.1)).prop_map(|(mut docs, flag, parse_error)| {
-        // one document per slot
-        let mut seen = BTreeSet::new();
-        docs.retain(|d| seen.insert(d.slot));
-        P18 { docs, flag, parse_error }
-    });
+    let p = (
+        vec(doc, 1..5),
+        prop_oneof![5 => Just(0u8), 2 => Just(1u8), 1 => Just(2u8)],
+        proptest::bool::weighted(0.1),
+        prop_oneof![6 => Just(0u8), 1 => Just(1u8), 1 => Just(2u8)],
+    )
+        .prop_map(|(mut docs, flag, parse_error, command)| {
+            // one document per slot
+            let mut seen = BTreeSet::new();
+            docs.retain(|d| seen.insert(d.slot));
+            P18 { docs, flag, parse_error, command }
+        });
     vec(p, 1..4).prop_map(|procs| Case18 { procs }).boxed()
 }
 
@@ -145,13 +155,19 @@ fn check_case(c: &Case18) -> V {
         flag: u8,
         parse_error: bool,
         expect_exit: i32,
+        command: u8,
     }
     let mut planned = vec![];
     let mut dump = String::new();
     for (pi, p) in c.procs.iter().enumerate() {
         let base = dir.path().join(format!("p{pi}"));
         let mut docs = BTreeMap::new();
-        let mut args: Vec<String> = vec!["test".into(), "--no-color".into(), "-r".into(), "json".into()];
+        let mut args: Vec<String> = match p.command {
+            1 => vec!["update".into(), "--no-color".into(), "--replace".into(), "--assume-yes".into()],
+            2 => vec!["create".into(), "--no-color".into(), "--output".into(), base.join("created.md").to_string_lossy().to_string()],
+            _ => vec!["test".into(), "--no-color".into(), "-r".into(), "json".into()],
+        };
+        std::fs::create_dir_all(&base).ok();
         let work = if p.flag == 1 {
             let w = base.join("W");
             std::fs::create_dir_all(&w).ok();
@@ -187,6 +203,13 @@ fn check_case(c: &Case18) -> V {
             std::fs::write(&bad, "```scrut\nexpectation but no command\n```\n").ok();
             args.push(bad.to_string_lossy().to_string());
         }
+        if p.command == 2 {
+            // `scrut create` takes a shell expression instead of documents
+            let keep: Vec<String> = args.iter().take_while(|a| !a.ends_with(".md") && !a.ends_with(".t") || a.ends_with("created.md")).cloned().collect();
+            args = keep;
+            args.push("--".into());
+            args.push("touch file-in-cwd; mktemp > /dev/null; echo created".into());
+        }
         let any_exec_error = p.docs.iter().any(|d| d.outcome == 4);
         let any_fail = p.docs.iter().any(|d| d.outcome == 1 || d.outcome == 2);
         let expect_exit = if p.parse_error || any_exec_error { 1 } else if any_fail { 50 } else { 0 };
@@ -198,6 +221,7 @@ fn check_case(c: &Case18) -> V {
             flag: p.flag,
             parse_error: p.parse_error,
             expect_exit,
+            command: p.command,
         });
     }
     // start all scrut processes together, sharing one TMPDIR
@@ -231,6 +255,8 @@ fn check_case(c: &Case18) -> V {
         .label_if(c.procs.iter().any(|p| p.parse_error), "parse_error_class")
         .label_if(c.procs.iter().any(|p| p.flag == 1), "work_directory_flag")
         .label_if(c.procs.iter().any(|p| p.flag == 2), "keep_flag")
+        .label_if(c.procs.iter().any(|p| p.command == 1), "update_command")
+        .label_if(c.procs.iter().any(|p| p.command == 2), "create_command")
         .label_if(c.procs.iter().any(|p| p.docs.iter().filter(|d| d.slot < 2).count() == 2), "identical_file_names");
     let fail = |m: String| V::fail(format!("{m}\n{dump}"));
 
@@ -262,6 +288,13 @@ fn check_case(c: &Case18) -> V {
     // 2. exit status, environment and working directories from the logs
     let mut cwd_owner: BTreeMap<String, String> = BTreeMap::new();
     for (p, r) in planned.iter().zip(results.iter()) {
+        if p.command != 0 {
+            // update / create: orderly termination only (the clean-up is inspected above and below)
+            if r.code.is_none() {
+                return fail(format!("a scrut {} process was killed by signal {:?}", if p.command == 1 { "update" } else { "create" }, r.signal));
+            }
+            continue;
+        }
         if r.code != Some(p.expect_exit) {
             return fail(format!("a scrut process exits with {:?}, expected {} (stderr: {})", r.code, p.expect_exit, truncate(&r.stderr, 300)));
         }
